@@ -75,8 +75,22 @@ class Path:
 
     def fork(self):
         p = Path()
-        p.env = dict(self.env)
-        p.heap = dict(self.heap)
+        # mutable abstract values (dict literals updated by item stores) must not be shared between the two
+        # branches of a fork: copy each DictVal once, keeping aliasing within the path
+        memo = {}
+
+        def cp(v):
+            if isinstance(v, DictVal):
+                if id(v) not in memo:
+                    d = DictVal(open_=v.open)
+                    memo[id(v)] = d
+                    d.items = {k: cp(x) for k, x in v.items.items()}
+                return memo[id(v)]
+            if isinstance(v, tuple):
+                return tuple(cp(x) for x in v)
+            return v
+        p.env = {k: cp(v) for k, v in self.env.items()}
+        p.heap = {k: cp(v) for k, v in self.heap.items()}
         p.events = list(self.events)
         p.conds = list(self.conds)
         p.status = self.status
